@@ -95,6 +95,11 @@ func c05Root(p c05p) func() {
 		}
 		cfg := baseConfig()
 		cfg.IngestBufferSize = p.ib
+		if p.start == "none" && p.stop == "after" {
+			// Nobody consumes before Stop is called, and Stop is only called once the
+			// producers returned: the buffer must hold every request.
+			cfg.IngestBufferSize = 4
+		}
 		if p.rows > 0 {
 			cfg.MaxBufferedRows = p.rows
 		}
